@@ -75,6 +75,11 @@ func ruleC18(r *Report) {
 		checkDecodersPure(r, p, "C18.instants", func(tn string) bool { return tn == "LogoutResponse" || tn == "Status" || tn == "StatusCode" })
 	})
 
+	// the request-level entry point reports valid only what one of the two validators reported valid (a method it does not
+	// serve must not fall through to "no error")
+	r.Rule("C18.entry", "the request-level entry point returns nil only under the nil result of the form validator or of the redirect validator", 1)
+	safely(r, func() { checkLogoutEntry(r, p, "C18.entry") })
+
 	opaque := map[*ssa.Function]bool{}
 	for _, v := range sr.Validators {
 		opaque[v] = true
@@ -435,4 +440,53 @@ func wrappedDecompressor(p *Prog, v ssa.Value) *types.Named {
 		return nil
 	}
 	return wrapper
+}
+
+// checkLogoutEntry: ValidateLogoutResponseRequest (role: the exported ServiceProvider method taking *http.Request and
+// returning only an error, that calls the form and redirect validators) succeeds only when a validator did.
+func checkLogoutEntry(r *Report, p *Prog, rule string) {
+	n := 0
+	for _, fn := range p.modFns {
+		if !p.InLibrary(fn) || fn.Signature.Recv() == nil || !typeIs(fn.Signature.Recv().Type(), modPath, "ServiceProvider") || fn.Object() == nil || !fn.Object().Exported() {
+			continue
+		}
+		if fn.Signature.Params().Len() != 1 || types.TypeString(fn.Signature.Params().At(0).Type(), nil) != "*net/http.Request" || fn.Signature.Results().Len() != 1 || errIndex(fn) != 0 {
+			continue
+		}
+		a := NewAnalysis(p)
+		B := a.B
+		fc := a.Ctx(fn)
+		fc.ensureConds()
+		validated := B.False
+		k := 0
+		for _, b := range fn.Blocks {
+			for _, in := range b.Instrs {
+				c, ok := in.(*ssa.Call)
+				if !ok || c.Call.StaticCallee() == nil {
+					continue
+				}
+				sc := c.Call.StaticCallee()
+				if sc.Signature.Recv() == nil || !typeIs(sc.Signature.Recv().Type(), modPath, "ServiceProvider") || sc.Signature.Results().Len() != 1 || errIndex(sc) != 0 || !strings.Contains(sc.Name(), "LogoutResponse") {
+					continue
+				}
+				k++
+				validated = B.Or(validated, B.And(fc.Cond(b), B.Not(fc.NonNil(c))))
+			}
+		}
+		if k == 0 {
+			continue
+		}
+		n++
+		r.Fn(p.FnName(fn))
+		accept := B.Not(fc.NotAcceptFormula())
+		cons := p.FnName(fn) + ": reports valid only what a validator reported valid"
+		if B.Implies(accept, validated) {
+			r.OK(rule, cons, p.Pos(fn.Pos()), fmt.Sprintf("every nil return lies under the nil result of one of %d validator calls", k))
+		} else {
+			r.Bad(rule, cons, p.Pos(fn.Pos()), "the entry point can return nil although neither validator accepted the response: e.g. under "+firstCube(B, B.And(accept, B.Not(validated))))
+		}
+	}
+	if n == 0 {
+		r.Undecided(rule, "request-level logout entry point", "-", "no exported ServiceProvider method of *http.Request that calls the logout-response validators found")
+	}
 }
